@@ -15,33 +15,115 @@ def num(x):
     return Fraction(x)
 
 
+def _subset(tag, n):
+    return {'even': [i for i in range(n) if i % 2 == 0], 'odd': [i for i in range(n) if i % 2 == 1],
+            'firsthalf': list(range((n + 1) // 2)), 'lasthalf': list(range(n // 2, n)), 'all': list(range(n))}[tag]
+
+
 def _variant_kwargs(geo, variant):
+    """aids built from the geometry object as it is NOW; allowed = indices of the columns the call may return."""
     cols = geo.columnlist
-    kw, allowed, guess = {}, None, None
+    n = len(cols)
+    kw, subset, sq, whole_q, guess = {}, None, None, False, None
     for part in variant.split('+'):
         if part == 'plain': pass
-        elif part == 'qtree': kw['qtree'] = geo.column_quadtree()
+        elif part == 'qtree': kw['qtree'] = geo.column_quadtree(); whole_q = True
+        elif part.startswith('sqtree:'):
+            sq = _subset(part[7:], n)
+            kw['qtree'] = geo.column_quadtree([cols[i] for i in sq])
         elif part == 'brect': kw['bounds'] = geo.bounds
         elif part == 'bpoly': kw['bounds'] = geo.boundary_polygon
-        elif part == 'bnodes': kw['bounds'] = [n.pos for n in geo.boundary_nodes]
+        elif part == 'bnodes': kw['bounds'] = [nd.pos for nd in geo.boundary_nodes]
         elif part.startswith('guess'):
-            guess = int(part[5:]) % len(cols)
+            guess = int(part[5:]) % n
             kw['guess'] = cols[guess]
         elif part.startswith('cols:'):
-            tag = part[5:]
-            n = len(cols)
-            idx = {'even': [i for i in range(n) if i % 2 == 0], 'odd': [i for i in range(n) if i % 2 == 1],
-                   'firsthalf': list(range((n + 1) // 2)), 'lasthalf': list(range(n // 2, n)), 'all': list(range(n))}[tag]
-            kw['columns'] = [cols[i] for i in idx]
-            allowed = set(idx)
-    if 'qtree' in kw: allowed = None
-    if allowed is not None and guess is not None: allowed.add(guess)
+            subset = _subset(part[5:], n)
+            kw['columns'] = [cols[i] for i in subset]
+    base = set(subset) if subset is not None else None
+    if whole_q: allowed = None
+    elif sq is not None: allowed = set(sq)
+    else: allowed = base
+    if allowed is not None and guess is not None:
+        nb = set(cols.index(c) for c in cols[guess].neighbour)
+        allowed = set(allowed) | set([guess]) | (nb if base is None else (nb & base))
     return kw, allowed
+
+
+def _hits(spec, x, y):
+    """indices of the columns of `spec` that contain the float point (exact winding oracle); None if on an edge."""
+    hits = []
+    for i, (name, nodenames, centre, surface) in enumerate(spec['columns']):
+        w = G.winding_contains(G.polygon_of(spec, name), Fraction(x), Fraction(y))
+        if w is None: return None
+        if w: hits.append(i)
+    return hits
+
+
+def _expected_block(spec, k, z):
+    """name of the block of column index k containing elevation z (None: none; False: z on a block boundary)."""
+    lay = spec['layers']
+    surf = spec['columns'][k][3]
+    if surf is None: surf = lay[0][1]
+    exp = None
+    for li in range(1, len(lay)):
+        bottom, top = lay[li][1], lay[li - 1][1]
+        if surf > bottom:
+            hi = surf if (surf < top or (li == 1 and surf > top)) else top
+            if z == bottom or z == hi: return False
+            if bottom < z < hi: exp = spec['columns'][k][0][0:3] + lay[li][0][0:2]
+    return exp
+
+
+def _replay_history(d, mg):
+    """query -> operations -> query on ONE object built with the real modules; the oracle for each query is the exact
+    winding test on the node positions the object has at that moment (read from the object, not from any cache)."""
+    import numpy as np
+    spec = G.make_spec(mg, d['geo'], d.get('ncols'))
+    geo = G.build(mg, spec)
+    ops = [tuple(op) for op in d['ops']]
+    x1, y1 = float(num(d['point1']['x'])), float(num(d['point1']['y']))
+    x, y = float(num(d['point']['x'])), float(num(d['point']['y']))
+    h1 = _hits(spec, x1, y1)
+    if h1 is None or len(h1) > 1: return False, 'first point on an edge / in several columns: outside the quantifier'
+    kw1, allowed1 = _variant_kwargs(geo, d['first'])
+    r1 = geo.column_containing_point(np.array([x1, y1]), **kw1)
+    exp1 = h1[0] if h1 else None
+    if exp1 is not None and allowed1 is not None and exp1 not in allowed1: exp1 = None
+    exp1 = None if exp1 is None else spec['columns'][exp1][0]
+    got1 = None if r1 is None else r1.name
+    head = '%s: first query %s at (%r, %r) -> %r (oracle %r)' % (d['geo'], d['first'], x1, y1, got1, exp1)
+    if got1 != exp1: return True, head
+    G.apply_ops(mg, geo, ops)
+    specB = G._dump(geo)                      # node positions / layers / surfaces of the object as it is now
+    h2 = _hits(specB, x, y)
+    if h2 is None or len(h2) > 1: return False, 'second point on an edge / in several columns: outside the quantifier'
+    head += '; then %r on the same object' % (d['ops'],)
+    if d['second'] == 'block':
+        z = float(num(d['point']['z']))
+        r = geo.block_name_containing_point(np.array([x, y, z]))
+        exp = _expected_block(specB, h2[0], z) if h2 else None
+        if exp is False: return False, 'replay elevation lies exactly on a block boundary: outside the quantifier'
+        return r != exp, head + '; block_name_containing_point(%r, %r, %r) -> %r, independent oracle says %r' % (x, y, z, r, exp)
+    kw2, allowed2 = _variant_kwargs(geo, d['second'])
+    r = geo.column_containing_point(np.array([x, y]), **kw2)
+    exp = h2[0] if h2 else None
+    if exp is not None and allowed2 is not None and exp not in allowed2: exp = None
+    exp = None if exp is None else specB['columns'][exp][0]
+    got = None if r is None else r.name
+    # the same query on a fresh, never-queried object with the same history of operations (for the message only)
+    fresh = G.apply_ops(mg, G.build(mg, spec), ops)
+    kwf, _ = _variant_kwargs(fresh, d['second'])
+    rf = fresh.column_containing_point(np.array([x, y]), **kwf)
+    return got != exp, head + '; second query %s at (%r, %r) -> %r, exact oracle says %r (never-queried object: %r)' % (
+        d['second'], x, y, got, exp, None if rf is None else rf.name)
 
 
 def replay(d):
     import numpy as np
     import mulgrids as mg
+    if d['fn'] == 'history':
+        return _replay_history(d, mg)
     spec = G.make_spec(mg, d['geo'], d.get('ncols'))
     geo = G.build(mg, spec)
     if d['fn'] == 'track':
